@@ -142,8 +142,10 @@ pub fn open_position(
     // retrieves existing position or creates a new one
     let position: Position = get_position(env, deps.storage, &vamm, &trader, side.clone());
 
-    // if direction and side are same way then increasing else we are reversing
-    let is_increase: bool = position.direction == Direction::AddToAmm && side == Side::Buy
+    // if direction and side are same way then increasing else we are reversing; an emptied position
+    // record (size zero, stale direction) is a new position whatever its old direction was
+    let is_increase: bool = position.size.is_zero()
+        || position.direction == Direction::AddToAmm && side == Side::Buy
         || position.direction == Direction::RemoveFromAmm && side == Side::Sell;
 
     // calculate the position notional
